@@ -199,14 +199,7 @@ func e2eOne(c *Ctx, prop string, idx int, seed int64, sp *e2eSpec, dir string) {
 		s.Events = tailEvents(o.events, 150)
 		res.Violate(Violation{Clause: clause, Fingerprint: p + "/" + fp, Detail: detail, Scenario: &s, Index: idx})
 	}
-	if dp := os.Getenv("VERIF_DUMP"); dp != "" {
-		b, _ := json.MarshalIndent(map[string]any{"events": o.events, "final": o.final, "staged": o.staged, "sources": o.sources, "cache": o.cache,
-			"delivered": o.delivered, "logged": o.logged, "requests": o.reqs, "final_tree": treeListing(o.w.recv.FinalDir)}, "", " ")
-		if strings.Contains(dp, "%d") {
-			dp = fmt.Sprintf(dp, idx)
-		}
-		_ = os.WriteFile(dp, b, 0o644)
-	}
+	dumpOutcome(o, idx)
 	oracleIntegrity(o, v)
 	oracleRelease(o, v)
 	oraclePollTiming(o, v)
@@ -397,4 +390,18 @@ func tailEvents(ev []wEvent, n int) []wEvent {
 		return ev[len(ev)-n:]
 	}
 	return ev
+}
+
+// dumpOutcome writes everything observed in one run to $VERIF_DUMP (diagnosis of a witness)
+func dumpOutcome(o *e2eOutcome, idx int) {
+	dp := os.Getenv("VERIF_DUMP")
+	if dp == "" {
+		return
+	}
+	b, _ := json.MarshalIndent(map[string]any{"events": o.events, "final": o.final, "staged": o.staged, "sources": o.sources, "cache": o.cache,
+		"delivered": o.delivered, "logged": o.logged, "requests": o.reqs, "final_tree": treeListing(o.w.recv.FinalDir)}, "", " ")
+	if strings.Contains(dp, "%d") {
+		dp = fmt.Sprintf(dp, idx)
+	}
+	_ = os.WriteFile(dp, b, 0o644)
 }
